@@ -1215,6 +1215,14 @@ fn grp_str(g: &mut G) {
             }
         }
     }
+    // SSE2 scalar move `movsd xmm, xmm/m64` (F2 0F 10 /r, F2 0F 11 /r): capstone gives it the id of the string instruction
+    // movsd (X86_INS_MOVSD). It touches no general-purpose register, no flag and (register / load forms) no memory: either
+    // rejected or lifted so (defect D12: it went to the string-move builder, which moved rsi / rdi by 16)
+    let dfs = vec![Patch { df: Some(false), ..Default::default() }, Patch { df: Some(true), ..Default::default() }];
+    g.add("sse.movsd", REL_STR, "movsd xmm0, xmm1 (F2 0F 10 C1)".to_string(), Some(vec![0xF2, 0x0F, 0x10, 0xC1]), I::Nop, B3, dfs.clone());
+    g.add("sse.movsd", REL_STR, "movsd xmm1, xmm0 (F2 0F 11 C1)".to_string(), Some(vec![0xF2, 0x0F, 0x11, 0xC1]), I::Nop, B3, dfs.clone());
+    g.add("sse.movsd", REL_STR, "movsd xmm0, qword [ebx|rbx] (F2 0F 10 03)".to_string(), Some(vec![0xF2, 0x0F, 0x10, 0x03]), I::Nop, B3,
+        dfs.iter().map(|p| p.merge(&Patch { full: vec![(3, 0x10400)], ..Default::default() })).collect());
 }
 
 // ------------------------------------------------------------------ group "int": the remaining integer builders
@@ -1498,6 +1506,9 @@ fn run(m: M, program: &RC<il::Program>, backing: &RC<memory::backing::Memory>, c
         state.set_scalar(n, il::const_(v as u64, 1));
     }
     for (n, v) in [("fs_base", cpu.fs), ("gs_base", cpu.gs), ("cs_base", 0), ("ds_base", 0), ("es_base", 0), ("ss_base", 0)] { state.set_scalar(n, il::const_(v, fb)); }
+    // XMM registers (64-bit mode only has them in the lifter's table): bound so that an instruction which reads one executes;
+    // they are not compared (the model has no vector state), only what the instruction does to everything else is
+    if m == M::Amd64 { for i in 0..16u64 { state.set_scalar(format!("xmm{}", i), il::const_(0x1111_2222_3333_4444u64.wrapping_mul(i + 1), 128)); } }
     for (&a, &b) in &cpu.mem { state.memory_mut().store(a, il::const_(b as u64, 8)).map_err(|e| format!("{}", e))?; }
     let arch: RC<dyn architecture::Architecture> = match m {
         M::X86 => RC::new(architecture::X86::new()),
@@ -1589,8 +1600,13 @@ fn process(m: M, cases: &[Case], bases: &[Cpu], img: &(Vec<u8>, Vec<u8>)) -> Res
             let n = per_op_reports.entry(case.op.clone()).or_insert(0);
             if *n < 64 {
                 *n += 1;
-                reports.push(Report { op: case.op.clone(), line: format!("{{\"witness\":true,\"op\":\"{}\",\"ops_related\":{},\"mode\":\"{}\",\"bytes\":\"{}\",\"asm\":\"{}\",\"state\":{},\"where\":\"{}\",\"expected\":\"{}\",\"got\":\"{}\"}}",
-                    case.op, case.rel, m.name(), hex.join(" "), case.asm, state_json(m, cpu), what, exp, got) });
+                // known defect D12 (units/C01/proposed_fix_12.diff): the SSE2 scalar move goes to the string-move builder, which moves
+                // rsi / rdi by the operand size 16 - tagged only when the observed result is exactly that
+                let hexv = |t: &str| u64::from_str_radix(t.trim_start_matches("0x"), 16).ok();
+                let d12 = case.op == "sse.movsd" && what == "rsi" && match (hexv(&exp), hexv(&got)) { (Some(e), Some(g)) => g == e.wrapping_add(16) || g == e.wrapping_sub(16), _ => false };
+                let tag = if d12 { ",\"known_defect\":\"D12-sse-movsd-as-string-move\"" } else { "" };
+                reports.push(Report { op: case.op.clone(), line: format!("{{\"witness\":true,\"op\":\"{}\",\"ops_related\":{},\"mode\":\"{}\",\"bytes\":\"{}\",\"asm\":\"{}\",\"state\":{},\"where\":\"{}\",\"expected\":\"{}\",\"got\":\"{}\"{}}}",
+                    case.op, case.rel, m.name(), hex.join(" "), case.asm, state_json(m, cpu), what, exp, got, tag) });
             }
         };
         let backing = build_backing(&case.bytes, &case.sem, img);
